@@ -47,8 +47,22 @@ Fixpoint trt (D : list ident) (ps : list pstmt) : list cnode * list gdecl :=
       end
   end.
 
-Definition trm (top : bool) (D : tenv) (ps : list pstmt) : list cnode * list gdecl :=
-  if top then trt (map fst D) ps else (trn ps, []).
+(* body level of `while True:` (loop()): a first assignment declares a local, in place *)
+Fixpoint trl (D : list ident) (ps : list pstmt) : list cnode :=
+  match ps with
+  | [] => []
+  | p :: r =>
+      match p with
+      | PAssign x e =>
+          if tmem x D then tr1 p ++ trl D r
+          else NDecl x (a_ty e) (XE (a_id e)) false :: trl (D ++ [x]) r
+      | _ => tr1 p ++ trl D r
+      end
+  end.
+
+(* [top] = the statement list may declare; [lm] = it is the main-loop body (declarations are locals) *)
+Definition trm (top lm : bool) (D : tenv) (ps : list pstmt) : list cnode * list gdecl :=
+  if top then (if lm then (trl (map fst D) ps, []) else trt (map fst D) ps) else (trn ps, []).
 
 (* names whose C binding a statement may update (loop variables live in their own binding) *)
 Fixpoint wr (p : pstmt) : list ident :=
